@@ -26,7 +26,9 @@ for pid in sys.argv[1:]:
         env = dict(os.environ, PYTHONPATH=tree)
         # run the demo from a neutral directory: the script's own directory is sys.path[0]
         os.makedirs(f"/tmp/confirm_demo_{pid}_{i}", exist_ok=True)
-        demo = shutil.copy(os.path.join(src, m["demo"]), f"/tmp/confirm_demo_{pid}_{i}/demo.py")
+        shutil.copy(os.path.join(src, m["demo"]), f"/tmp/confirm_demo_{pid}_{i}/demo.py")
+        # the demo runs from the ROOT of the scratch tree (its directory is sys.path[0])
+        demo = shutil.copy(os.path.join(src, m["demo"]), os.path.join(tree, "_seeded_demo.py"))
         diff = os.path.join(src, m["diff"])
         clean = sh(f"/venv/bin/python {demo}", cwd=tree, env=env)
         ap = sh(f"git apply {diff}", cwd=tree)
@@ -46,7 +48,7 @@ for pid in sys.argv[1:]:
             dst = os.path.join(HERE, "seeded", pid, f"m{i}")
             os.makedirs(dst, exist_ok=True)
             shutil.copy(diff, os.path.join(dst, "patch.diff"))
-            shutil.copy(demo, os.path.join(dst, "demo.py"))
+            shutil.copy(f"/tmp/confirm_demo_{pid}_{i}/demo.py", os.path.join(dst, "demo.py"))
             shutil.rmtree(f"/tmp/confirm_demo_{pid}_{i}", ignore_errors=True)
             json.dump({"property": pid, "summary": m.get("summary"), "needs": m.get("needs"),
                        "files": m.get("files"),
